@@ -314,14 +314,30 @@ def rule_m3(ctx) -> None:
                     ctx.finding("C09-M3", "%s:reparse-edited-smiles" % q.split("synrbl.", 1)[-1], f.loc(node), "a compound is re-parsed from a SMILES string edited with %s(): atoms can be lost or renumbered" % node.value.func.attr)
 
 
+def _h_fix_helper(ctx, f):
+    """the helper of MergeRule.apply that lowers explicit hydrogen counts: the nested `_fix_Hs`, or a method / function
+    that apply calls and that contains the SetNumExplicitHs call"""
+    fix = f.nested.get("_fix_Hs")
+    if fix is not None:
+        return fix
+    for c in calls(f):
+        tgt = ctx.res.resolve_callee(c, f)
+        g = ctx.prog.functions.get(tgt[1]) if tgt and tgt[0] == "func" else None
+        if g is None and isinstance(c.func, ast.Attribute) and isinstance(c.func.value, ast.Name) and c.func.value.id in ("self", "cls") and f.cls is not None:
+            g = ctx.prog.lookup_method(f.cls, c.func.attr)
+        if g is not None and g is not f and any(isinstance(x, ast.Call) and isinstance(x.func, ast.Attribute) and x.func.attr == "SetNumExplicitHs" for x in own_nodes(g.node)):
+            return g
+    return None
+
+
 def rule_m4(ctx) -> None:
     ctx.rule("C09-M4", "hydrogen fixing on both boundary atoms, under bond_type is not None, before merge_two_mols", 2)
     prog = ctx.prog
     f = prog.func(RULES + ".MergeRule.apply")
     cfg = CFG(f.node)
-    fix = f.nested.get("_fix_Hs")
+    fix = _h_fix_helper(ctx, f)
     ctx.require(fix is not None, "MergeRule.apply lost its _fix_Hs helper")
-    fix_calls = [c for c in calls(f) if isinstance(c.func, ast.Name) and c.func.id == "_fix_Hs"]
+    fix_calls = [c for c in calls(f) if (isinstance(c.func, ast.Name) and c.func.id == fix.name) or (isinstance(c.func, ast.Attribute) and c.func.attr == fix.name)]
     merge_calls = [c for c in calls(f) if unparse(c.func).endswith("merge_two_mols")]
     ctx.require(merge_calls, "MergeRule.apply no longer calls merge_two_mols")
     args = sorted(unparse(c.args[0]) for c in fix_calls if c.args)
@@ -363,7 +379,7 @@ def rule_m10(ctx) -> None:
     ctx.rule("C09-M10", "explicit hydrogen counts are changed only by the hydrogen-fixing helper of MergeRule.apply", 1)
     prog = ctx.prog
     f = prog.func(RULES + ".MergeRule.apply")
-    fix = f.nested.get("_fix_Hs")
+    fix = _h_fix_helper(ctx, f)
     ctx.require(fix is not None, "MergeRule.apply lost its _fix_Hs helper")
     sites = []
     for q, g in sorted(prog.functions.items()):
